@@ -135,7 +135,7 @@ func suiteSuppaRuns(c *Ctx) {
 				jobs = append(jobs, job{ds, -1, 0, kind})
 			}
 			for v := 0; v < 6; v++ {
-				for _, lim := range limitsFor(ref, r, v, c.N(1, 4)) {
+				for _, lim := range startLimitsFor(ref, r, v, c.N(1, 4)) {
 					jobs = append(jobs, job{ds, v, lim, kind})
 				}
 			}
@@ -146,7 +146,7 @@ func suiteSuppaRuns(c *Ctx) {
 		jobs = append(jobs, job{ds, -1, 0, []string{"product", "averaged"}[r.Intn(2)]})
 		if ref, err := newRef(ds, -1, 0); err == nil && ref.cm.n() > 0 {
 			v := r.Intn(6)
-			for _, lim := range limitsFor(ref, r, v, 1) {
+			for _, lim := range startLimitsFor(ref, r, v, 1) {
 				jobs = append(jobs, job{ds, v, lim, []string{"product", "averaged"}[r.Intn(2)]})
 			}
 		}
@@ -241,7 +241,7 @@ func oneSuppaRun(c *Ctx, r *Rng, ds string, limVar int, limit float64, kind stri
 	c.Stat(fmt.Sprintf("suppa run kind=%s limit=%s n=%d", kind, limName(limVar), n))
 
 	// C03: after the initial randomisation the limited variable is within its limit
-	if limVar >= 0 && totalsOf(cur)[limVar] > limit+1e-9 {
+	if limVar >= 0 && totalsOf(cur)[limVar] > limit {
 		c.Fail("C03:initial-state-respects-limit", "suppa:initial-state-exceeds-limit", fmt.Sprintf("%s = %v > %v after Initialise()", varNames[limVar], totalsOf(cur)[limVar], limit), nil)
 	}
 
@@ -428,7 +428,7 @@ func (run *suppaRun) iterate(r *Rng, n int) bool {
 	}
 	// C03: the held state and every archive member respect the limit
 	if run.limVar >= 0 {
-		if totalsOf(run.cur)[run.limVar] > run.limit+1e-9 {
+		if totalsOf(run.cur)[run.limVar] > run.limit {
 			c.Fail("C03:held-state-respects-limit", "suppa:current-exceeds-limit", fmt.Sprintf("iteration %d: %s = %v > %v", iterNo, varNames[run.limVar], totalsOf(run.cur)[run.limVar], run.limit), nil)
 		}
 		li := 0
@@ -438,7 +438,7 @@ func (run *suppaRun) iterate(r *Rng, n int) bool {
 			}
 		}
 		for _, a := range archNow {
-			if a.Variables[li] > run.limit+1e-9 {
+			if a.Variables[li] > run.limit {
 				c.Fail("C03:archived-state-respects-limit", "suppa:archive-member-exceeds-limit", fmt.Sprintf("iteration %d: %v > %v", iterNo, a.Variables[li], run.limit), nil)
 			}
 		}
